@@ -418,10 +418,13 @@ def _c_values(spec, out):
             if t < ss[0]:
                 continue
             if t >= ss[-1]:
-                if t < ss[-1] + 2 * (ss[-1] - ss[-2]) - 1e-9:
+                ext = ss[-1] + 2 * (ss[-1] - ss[-2])
+                # with naive stamps the extension is wall-clock arithmetic: a DST switch inside it moves its end by an hour
+                margin = 3600.0 if naive else 0.0
+                if t < ext - margin - 1e-9:
                     exp[j] = vv[-1]
                 else:
-                    claim[j] = False   # beyond the undocumented generous extension: no claim
+                    claim[j] = False   # at / beyond the end of the undocumented generous extension: no claim
                 continue
             for i in range(len(ss) - 1):
                 if ss[i] <= t < ss[i + 1]:
